@@ -101,8 +101,28 @@ func runDirectCase(r *ev.Run, cfgIdx int, base vfsh.Config, i int) {
 		}
 		return true
 	}
+	hooks := newHookTracker(x.M, r.Rand(4, uint64(cfgIdx), uint64(i)))
 	for s := 0; s < steps && !failed; s++ {
-		if !x.Do(gen.Next()) {
+		if op, ok := hooks.maybeInstall(); ok {
+			if !x.Do(op) {
+				break
+			}
+			hooks.installed(op)
+			if failed {
+				break
+			}
+		}
+		op := gen.Next()
+		crosses, onto := hooks.renameCrossesHooks(op)
+		alive := x.Do(op)
+		hooks.adopt()
+		if crosses && x.Hist[len(x.Hist)-1].Got == vfsh.OK {
+			x.M.Sit[sitHooksRename]++
+			if onto {
+				x.M.Sit[sitHooksRenameOnto]++
+			}
+		}
+		if !alive {
 			break
 		}
 	}
@@ -178,6 +198,10 @@ func TestCheck(t *testing.T) {
 	for s, n := range gatedFloors {
 		r.Floor(s, n)
 	}
+	r.Assume("InstallHooks (same collaborators, new subtree object) is a no-op for the reference model: it must not change any status, listing, identity or change ID")
+	for s, n := range hookSituations {
+		r.Floor(s, n)
+	}
 
 	cfgs := configs()
 	if rf := r.ReplayFile(); rf != "" {
@@ -192,6 +216,9 @@ func TestCheck(t *testing.T) {
 			r.Floor(s, 0)
 		}
 		for s := range gatedFloors {
+			r.Floor(s, 0)
+		}
+		for s := range hookSituations {
 			r.Floor(s, 0)
 		}
 		switch w.Witness.Phase {
